@@ -277,6 +277,10 @@ def gen_keyed_cases(rng):
         ("select a.id, b.v from k1 a join k2 b on a.id = b.id", False, 0),
         ("select a.id, b.id from k1 a left join k2 b on a.id = b.id where a.id >= %d" % lo, False, 0),
         ("select a.id, b.id from k1 a join k2 b on a.id = b.id where b.id < %d order by a.id" % hi, True, 1),
+        ("select id from k1 where id in (select id from k2)", False, 0),
+        ("select id from k1 where exists (select * from k2 where k2.id = k1.id)", False, 0),
+        ("select id from k1 where not exists (select * from k2 where k2.id = k1.id) order by id", True, 1),
+        ("select id from k1 where id not in (select id from k2 where v > 1)", False, 0),
         ("select id, count(*), sum(v) from k1 group by id", False, 0),
         ("select id, count(*) from k1 where id >= %d group by id order by id" % lo, True, 1),
     ]
